@@ -258,6 +258,20 @@ def r183(ctx, rep):
 
 def r184(ctx, rep):
     sbi = f"{TR}.set_best_index"
+    # the initial centre: after the models (and so the initial values) exist, the
+    # constructor selects the best index on every path
+    init = ctx.func(f"{TR}.__init__")
+    icfg = ctx.cfg(init)
+    built = [n for n in icfg.nodes if n.kind == "stmt" and isinstance(n.ast, ast.Assign) and any(isinstance(t, ast.Attribute) and t.attr == "_models" for t in n.ast.targets)]
+    sel = [icfg.node_containing(ev.node) for ev in ctx.events(init) if ev.kind == "call" and any(t.kind == "repo" and t.name == sbi for t in ev.targets)]
+    if not built:
+        raise AnalysisError("TrustRegion.__init__: construction of the models not found")
+    desc = f"{init.local}: set_best_index() after the models are built"
+    if sel and any(icfg.dominates(built[0].id, s_) and icfg.postdominates(s_, built[0].id) for s_ in sel if s_ is not None):
+        rep.ok("R18.4", desc)
+    else:
+        rep.bad("R18.4", desc)
+        rep.finding("R18.4", init, "set_best_index()", init.node.lineno, "the constructor does not select the best interpolation point after the initial sampling: the first trust-region centre is point 0 whatever its merit value")
     for name in ("increase_penalty", "decrease_penalty"):
         f = ctx.func(f"{TR}.{name}")
         cfg = ctx.cfg(f)
